@@ -68,7 +68,7 @@ pub fn enumerated_case(prop: &str, k: u64, hash_key: u64) -> Option<(Init, Vec<(
         bare: None,
     };
     let label = format!("storage-fault:{}", crate::oracle::corrupt_kind(&corrupt));
-    Some((init, vec![(crate::ev::Ev::CorruptImport { fixture: Some(fixture), corrupt, read: None }, Some(label))]))
+    Some((init, vec![(crate::ev::Ev::CorruptImport { fixture: Some(fixture), corrupt, read: None, evaluate: false }, Some(label))]))
 }
 
 pub fn level_of(prop: &str) -> &'static str {
@@ -323,7 +323,7 @@ pub fn special_for(prop: &str) -> Option<Box<Special>> {
                 let corrupt = crate::xlsxfault::draw(rng, &base);
                 let read = if rng.chance(0.15) { Some(crate::xlsxfault::draw_read_plan(rng, base.len() as u64)) } else { None };
                 let label = format!("storage-fault:{}{}", crate::oracle::corrupt_kind(&corrupt), if read.is_some() { "+reader-fault" } else { "" });
-                Some((crate::ev::Ev::CorruptImport { fixture, corrupt, read }, Some(label)))
+                Some((crate::ev::Ev::CorruptImport { fixture, corrupt, read, evaluate: false }, Some(label)))
             }))
         }
         "C08" => Some(Box::new(|rng, w, _p| {
@@ -337,7 +337,7 @@ pub fn special_for(prop: &str) -> Option<Box<Special>> {
             let entry = (*rng.pick(&sheets)).clone();
             let value = rng.pick(&["1e999", "-1e999", "NaN", "inf", "-inf", "INF", "Infinity", "1e400", "9".repeat(400).as_str()]).to_string();
             let corrupt = crate::xlsxfault::Corrupt::SetText { entry, name: "v".into(), value, first: rng.chance(0.5) };
-            Some((crate::ev::Ev::CorruptImport { fixture: None, corrupt, read: None }, Some("file-number-forged".into())))
+            Some((crate::ev::Ev::CorruptImport { fixture: None, corrupt, read: None, evaluate: true }, Some("file-number-forged".into())))
         })),
         _ => None,
     }
@@ -364,7 +364,7 @@ pub fn rule_for(prop: &str) -> String {
         "C01" => "seeded histories of user-model operations (swarm-selected families, 3-40 events, undo 15%/redo 8%) on one editing session; a case is non-trivial iff at least one undo of a recorded operation was compared against the history-cursor model; distinct = distinct (event-kind sequence hash, final snapshot hash)".into(),
         "C02" => "as C01 with undo 25%/redo 20%; non-trivial iff at least one redo of an undone operation was compared against the cursor model".into(),
         "C24" => "histories of 3-25 operations (all families: styles, names, links, conditional formats, arrays, hidden rows/columns, panes...) with, at 12% of the steps, an export of the current workbook through the simulated disk followed by an import of what was written: 70% fault-free (snapshot restricted to the facets the statement lists must be equal), 30% under a drawn write-fault plan (short writes, Interrupted, hard error at byte k, failing seek, failing flush: the call must return Err, or Ok with a file that imports to an equal workbook); non-trivial iff at least one export happened on an evaluated state".into(),
-        "C25" => "valid packages (the simulator's own export of a history-reached state, or one of the ~240 fixtures under xlsx/tests) pass through one drawn storage fault - truncation, zero-filled block, bit flips, dropped/duplicated/emptied/swapped zip entries, truncated XML, dropped element, dropped/garbled attribute, forged text payload, deep nesting, garbage - and, in 15% of the cases, through a reader that injects short reads, Interrupted, EIO or early EOF (hook H2); the import (plus Model::from_workbook and evaluate when it returns a workbook) must return; a panic is the violation, a hang or abort is reported through the watchdog; non-trivial iff a damaged package was imported".into(),
+        "C25" => "valid packages (the simulator's own export of a history-reached state, or one of the ~240 fixtures under xlsx/tests) pass through one drawn storage fault - truncation, zero-filled block, bit flips, dropped/duplicated/emptied/swapped zip entries, truncated XML, dropped element, dropped/garbled attribute, forged text payload, deep nesting, garbage - and, in 15% of the cases, through a reader that injects short reads, Interrupted, EIO or early EOF (hook H2); the import (plus Model::from_workbook when it returns a workbook) must return; a panic is the violation, a hang or abort is reported through the watchdog; non-trivial iff a damaged package was imported".into(),
         "C29" => "two nodes per run: a bare Model (empty, one of four multi-column descriptor layouts, or imported from a fixture of xlsx/tests) driven through set_column_width / set_column_hidden / set_column_style / delete_column_style and the row equivalents, with byte-level restarts; and an editing session driven through set_columns_width / set_rows_height / set_columns_hidden / set_rows_hidden, update_range_style and range_clear_formatting on whole columns, whole rows and partial areas, with undo/redo and clean restarts; 3-40 events, lines drawn from 1..12 and the last two of the grid; after every event every line of the check set (window, grid edge, every line a descriptor mentions and its neighbours, every line ever touched) is read through the public getters and compared with the reference map; non-trivial iff at least one modelled setter call, user-level line operation or undo/redo happened".into(),
         "C30" => "same two nodes; a per-run pool of 10 styles drawn from the attribute space (40 number formats including built-in codes in other letter case, font name/family/scheme/size, five border sides in nine line styles, fill, eight horizontal and five vertical alignments, wrap, quote prefix) is assigned to cells, rows and columns of the bare Model (set_cell_style / set_row_style / set_column_style) and to cell ranges of the session (on_paste_styles), interleaved with the other operations; after every event every tracked target must read back (get_style_for_cell / get_row_style / get_column_style) the style last assigned to it; non-trivial iff at least one style assignment was tracked".into(),
         "C26" => "C01 histories with Save (6%), clean Restart (8%: to_bytes -> from_bytes -> evaluate, new incarnation with another hash seed, history lost) and dirty Restart (4%: crash, load the last saved bytes); the run continues on the restarted node; non-trivial iff a decode/encode workbook equality, a clean-restart or a dirty-restart snapshot comparison was made on an evaluated state".into(),
